@@ -301,6 +301,51 @@ func runCodec(args []string) int {
 			}
 		}
 	}
+	// encoding appends: what AppendTo adds depends on the object only - not on what the destination buffer held before
+	// (a reused scratch buffer re-sliced to length 0 or 7 still has old bytes in its spare capacity)
+	dirtied := 0
+	appendClean := func(what string, desc map[string]interface{}, obj wt.AppenderTo, enc []byte) {
+		for _, keep := range []int{0, 7} {
+			dirty := bytes.Repeat([]byte{0xa5}, 8192)
+			var out []byte
+			pan := ""
+			func() {
+				defer func() {
+					if rc := recover(); rc != nil {
+						pan = fmt.Sprint(rc)
+					}
+				}()
+				out = obj.AppendTo(dirty[:keep])
+			}()
+			dirtied++
+			if pan != "" || len(out) != keep+len(enc) || !bytes.Equal(out[keep:], enc) || !bytes.Equal(out[:keep], bytes.Repeat([]byte{0xa5}, keep)) {
+				if len(viols) < 40 {
+					viols = append(viols, violation{Prop: "C14", What: "encoding into a used buffer",
+						Detail: fmt.Sprintf("%s appended to a buffer of length %d with old bytes in its capacity: got %d bytes (panic %q), appended to nil it gives %x", what, keep, len(out)-keep, pan, enc),
+						Line:   desc})
+				}
+				return
+			}
+		}
+	}
+	for i := range shapes {
+		name, cnt := shapeOf(&shapes[i])
+		enc, dec := buildShape(name, cnt, i)
+		if _, obj, err := dec(enc); err == nil {
+			appendClean(fmt.Sprintf("%s with %d elements", name, cnt), map[string]interface{}{"shape": name, "count": cnt, "dirty": true}, obj, enc)
+		}
+	}
+	{
+		// the absent series (a nil *TimeSeries, what a fetch outside the retention yields)
+		var absent *wt.TimeSeries
+		enc := absent.AppendTo(nil)
+		appendClean("the absent series", map[string]interface{}{"shape": "absent-series", "dirty": true}, absent, enc)
+		o := &wt.TimeSeries{}
+		if rest, err := o.TakeFrom(append(append([]byte{}, enc...), 1, 2, 3)); err != nil || len(rest) != 3 || !bytes.Equal(o.AppendTo(nil), enc) {
+			viols = append(viols, violation{Prop: "C14", What: "codec framing", Detail: fmt.Sprintf("the absent series (%x) does not round-trip: err=%v", enc, err),
+				Line: map[string]interface{}{"shape": "absent-series"}})
+		}
+	}
 	// a receiver that already holds an object: what a decoder yields depends on the bytes only, so decoding a message
 	// into a receiver used before (longer, shorter, equal) must give the same object as decoding into a fresh one
 	reused := 0
@@ -346,7 +391,7 @@ func runCodec(args []string) int {
 		fmt.Fprintln(os.Stderr, "no framing cases exported")
 		return 2
 	}
-	pairs += reused
+	pairs += reused + dirtied
 	if len(viols) > 40 {
 		viols = viols[:40]
 	}
